@@ -157,6 +157,8 @@ type JGenOpts struct {
 	DropPrices         bool // leave out some price declarations (valued reports must then fail)
 	ChainPrices        bool // declare some prices through a third commodity
 	PricesFirstDayOnly bool // all price declarations on the first day (later days have bookings only)
+	DupPrices          bool // sometimes declare the same pair twice on one day with different prices (file order matters; excluded by C05 only)
+	CaseVariants       bool // commodities that differ only in letter case (distinct commodities; comparators must not tie on them)
 }
 
 var typeNames = []string{"Assets", "Liabilities", "Equity", "Income", "Expenses"}
@@ -213,6 +215,10 @@ func GenJournal(r *RNG, o JGenOpts) (*Journal, []string) {
 	}
 	if o.Unicode && r.Chance(1, 6) {
 		coms = append(coms, "Ünit")
+	}
+	if o.CaseVariants && r.Chance(1, 2) {
+		coms = append(coms, strings.ToLower(Pick(r, coms)))
+		tag("case-variant-commodity")
 	}
 	if o.Valuation != "" && !contains(coms, o.Valuation) {
 		coms = append(coms, o.Valuation)
@@ -286,6 +292,16 @@ func GenJournal(r *RNG, o JGenOpts) (*Journal, []string) {
 					default:
 						j.Dirs = append(j.Dirs, JDir{Kind: 'p', Date: day, Com: c, Price: p, Target: o.Valuation})
 						tag("price-direct")
+					}
+					if o.DupPrices && r.Chance(1, 4) {
+						// a second declaration of the same pair on the same day: the later one in file order wins
+						p2 := fmt.Sprintf("%d.%02d", r.Range(0, 300), r.Range(1, 99))
+						if r.Bool() {
+							j.Dirs = append(j.Dirs, JDir{Kind: 'p', Date: day, Com: c, Price: p2, Target: o.Valuation})
+						} else {
+							j.Dirs = append(j.Dirs, JDir{Kind: 'p', Date: day, Com: o.Valuation, Price: p2, Target: c})
+						}
+						tag("price-same-day-duplicate")
 					}
 				}
 			}
